@@ -39,7 +39,7 @@ struct Sess {
 }
 
 const WORDS: [&str; 12] = ["ab", "ba", "abc", "cab", "bca", "aa", "bb", "c", "acb", "xyz", "axb", "b"];
-const POINTS: [&str; 12] = ["hb.stopped", "hb.done", "hb.harvest", "hb.consumed", "hb.end", "rm.done", "rm.append", "rm.spawn", "m.load", "m.take", "m.publish", "m.notify"];
+const POINTS: [&str; 16] = ["hb.stopped", "hb.done", "hb.harvest", "hb.consumed", "hb.end", "rm.done", "rm.append", "rm.spawn", "m.load", "m.take", "m.publish", "m.notify", "m.stop", "r.start", "r.push", "s1.read"];
 
 fn gen(r: &mut Rng, focus: &str) -> Sess {
     let c14 = focus == "C14";
@@ -541,7 +541,9 @@ fn session_case(s: &Sess, o: &Outcome) -> Option<String> {
                 if a == 1 {
                     if let Some(j) = cur_matcher { if matchers.len() > j { adv_matcher(&mut lin, &mut matchers[j], "m.take", false); } }
                 }
-                lin.emit("LMain", vec![a as u64]);
+                // is the timer re-armed before this heartbeat ends?
+                let armed = main[i..].iter().take_while(|e| e.0 != "hb.end").any(|e| e.0 == "hb.arm");
+                lin.emit("LMain", vec![a as u64, armed as u64]);
             }
             "rm.done" => {
                 if a == 1 {
